@@ -437,6 +437,10 @@ def run(ctx: Ctx):
         ctx.fail(cons, sr.loc(), "the waiter is not removed in a finally clause around the wait: "
                  "every timed-out request leaves an entry behind and a late answer is swallowed by "
                  "the dead waiter instead of reaching handle_answer")
+    from .common_node import ready_check_atomic_with_send, waiter_table_synchronised
+    ready_check_atomic_with_send(ctx, "C10-R6", "send_request", "route_request")
+    waiter_table_synchronised(ctx, "C10-R7")
+    ctx.cur("C10-R5")
     cons = "send_request:result"
     ctx.inst(cons)
     waits = [n for n in gs.nodes if any(A.call_name(c).endswith(".event.wait") for c in n.calls())]
